@@ -371,6 +371,42 @@ impl Prop for C09 {
                 }
             }
         }
+        // large images: the pixel count passes 2^15, 2^16 and (one dimension) 2^16 - 1. Built order by order (one
+        // MEGA-MEGA order per scan line: colour run / colour image / background run / foreground run / dithered run),
+        // the expected pixels come from the reference decoder
+        for (w, h) in [(181u16, 181u16), (182, 181), (256, 128), (255, 257), (256, 256), (300, 300), (1024, 64), (65, 1009), (4096, 17), (65535, 1), (1, 65535), (32768, 2), (2, 32768)] {
+            for variant in 0..3u16 {
+                let mut orders = vec![];
+                for y in 0..h {
+                    let run = w as u32;
+                    let mk = |kind: Kind, a: u16, b: u16, pixels: Vec<u16>| Order { kind, form: Form::MegaMega, run, fg: 0, a, b, masks: vec![], pixels };
+                    let k = (y.wrapping_add(variant)) % 5;
+                    let o = match k {
+                        0 => mk(Kind::ColorRun, 0x1234u16.wrapping_add(y), 0, vec![]),
+                        1 => mk(Kind::ColorImage, 0, 0, (0..w).map(|x| x.wrapping_mul(0x0821) ^ y).collect()),
+                        2 if y > 0 => mk(Kind::BgRun, 0, 0, vec![]),
+                        3 if y > 0 => mk(Kind::FgRun, 0, 0, vec![]),
+                        4 if w % 2 == 0 => Order { run: w as u32 / 2, ..mk(Kind::DitheredRun, 0xF800, 0x001F, vec![]) },
+                        _ => mk(Kind::ColorRun, 0xFFFF, 0, vec![]),
+                    };
+                    orders.push(o);
+                }
+                cases.push(Case::Rle16 { w, h, orders });
+            }
+        }
+        // planar 32 bpp and raw images of the same sizes (flat and patterned)
+        for (w, h) in [(128usize, 128usize), (181, 181), (256, 128), (256, 256), (1024, 64), (16384, 1), (1, 16384), (65535, 1)] {
+            for pat in [0u8, 3] {
+                let mut bgra = vec![0u8; w * h * 4];
+                for (i, b) in bgra.iter_mut().enumerate() {
+                    *b = if pat == 0 { 0x20 } else { ((i / 4) as u8).wrapping_mul(31) ^ (i % 4) as u8 };
+                }
+                cases.push(Case::PlanarWide { w: w as u16, h: h as u16, bgra: bgra.clone(), strategy: 0 });
+                cases.push(Case::Raw32 { w: w as u16, h: h as u16, bgra });
+            }
+            let px: Vec<u16> = (0..w * h).map(|i| (i as u16).wrapping_mul(0x1357)).collect();
+            cases.push(Case::Raw16 { w: w as u16, h: h as u16, px });
+        }
         // all 65536 colour values
         for v in 0..=0xFFFFu32 {
             cases.push(Case::Widen(v as u16));
@@ -396,7 +432,7 @@ impl Prop for C09 {
         }
     }
     fn rule(&self) -> String {
-        "cases are encodings. [rle16] every sequence of <=3 interleaved-RLE orders (<=4 for shapes up to 4 pixels in thorough) over {all 12 order kinds} x {short, extended, mega-mega forms} x {every run length that fits} x palette {0,0xFFFF,0x1234} that the reference decoder maps onto a complete image of the shape (shapes up to 6 px; larger shapes with <=2 orders to reach extended forms / special orders); [planar32] every plane vector over {0,1,7F,80,FF} for shapes up to 2x2/4x1 x every segmentation of every scan line (one line varied at a time, plus all together), and wide lines (widths 16..141 around the 16/32/47-pixel run escapes and their multiples; constant, flat-zero, opaque-black and patterned images x 8 segmentation strategies) for the long-run escapes; [rle16-encoded] 14 structured image patterns x 8 sizes up to 64x64 x 10 deterministic strategies of a greedy reference encoder (order kinds allowed, preferred spelling, run-length cap); [raw16]/[raw32] bottom-up uncompressed layouts; [widen565] all 65536 colours. Non-trivial: >=2 orders or a non-default segmentation or >=2 rows.".into()
+        "cases are encodings. [rle16] every sequence of <=3 interleaved-RLE orders (<=4 for shapes up to 4 pixels in thorough) over {all 12 order kinds} x {short, extended, mega-mega forms} x {every run length that fits} x palette {0,0xFFFF,0x1234} that the reference decoder maps onto a complete image of the shape (shapes up to 6 px; larger shapes with <=2 orders to reach extended forms / special orders); [planar32] every plane vector over {0,1,7F,80,FF} for shapes up to 2x2/4x1 x every segmentation of every scan line (one line varied at a time, plus all together), and wide lines (widths 16..141 around the 16/32/47-pixel run escapes and their multiples; constant, flat-zero, opaque-black and patterned images x 8 segmentation strategies) for the long-run escapes; [rle16-encoded] 14 structured image patterns x 8 sizes up to 64x64 x 10 deterministic strategies of a greedy reference encoder (order kinds allowed, preferred spelling, run-length cap); large images whose pixel count passes 2^15 / 2^16 or whose side is 65535, in all four formats; [raw16]/[raw32] bottom-up uncompressed layouts; [widen565] all 65536 colours. Non-trivial: >=2 orders or a non-default segmentation or >=2 rows.".into()
     }
     fn assumptions(&self) -> Vec<String> {
         vec![
